@@ -536,6 +536,10 @@ func VerifyEvidence(doc *document.Document, evidence *document.ChipAuthEvidence)
 		return nil, fmt.Errorf("[VerifyEvidence] evidence field exceeds maximum length (%d)", maxEvidenceFieldLen)
 	}
 
+	if doc == nil || doc.Mf.Lds1.Dg14 == nil || doc.Mf.Lds1.Dg14.SecInfos == nil {
+		return nil, fmt.Errorf("[VerifyEvidence] DG14 (SecurityInfos) is missing")
+	}
+
 	params, err := selectChipAuthParams(doc)
 	if err != nil {
 		return nil, fmt.Errorf("[VerifyEvidence] selectChipAuthParams error: %w", err)
@@ -580,6 +584,9 @@ func VerifyEvidence(doc *document.Document, evidence *document.ChipAuthEvidence)
 		sscInit.Sub(new(big.Int).SetBytes(evidence.SmSsc), big.NewInt(1))
 	}
 	ssc := make([]byte, len(sm.SSC()))
+	if len(evidence.SmSsc) > len(ssc) {
+		return nil, fmt.Errorf("[VerifyEvidence] SSC is too long (exp:%d, act:%d)", len(ssc), len(evidence.SmSsc))
+	}
 	sscInit.FillBytes(ssc)
 	if err = sm.SetSSC(ssc); err != nil {
 		return nil, fmt.Errorf("[VerifyEvidence] SetSSC error: %w", err)
